@@ -10,62 +10,6 @@ import (
 
 // C10: no application handler runs before the capabilities exchange succeeds.
 
-// zzIDs: symbolic non-zero identifiers (zero identifiers are the subject of C16 / zzC11_cer / zzC13_dwr;
-// excluding them here avoids a four-way split inside every Answer call of a history)
-func zzIDs(m *diam.Message) {
-	m.Header.HopByHopID, m.Header.EndToEndID = vU32("hbh"), vU32("e2e")
-	vAssume(m.Header.HopByHopID != 0 && m.Header.EndToEndID != 0)
-}
-
-func zzCER(appID uint32, inband uint32, withInband bool) *diam.Message {
-	m := diam.NewRequest(diam.CapabilitiesExchange, 0, dict.Default)
-	zzIDs(m)
-	m.NewAVP(avp.OriginHost, avp.Mbit, 0, datatype.DiameterIdentity("peer.example"))
-	m.NewAVP(avp.OriginRealm, avp.Mbit, 0, datatype.DiameterIdentity("peers"))
-	m.NewAVP(avp.HostIPAddress, avp.Mbit, 0, datatype.Address([]byte{10, 0, 0, 1}))
-	m.NewAVP(avp.VendorID, avp.Mbit, 0, datatype.Unsigned32(99))
-	m.NewAVP(avp.ProductName, 0, 0, datatype.UTF8String("peer"))
-	if withInband {
-		m.NewAVP(avp.InbandSecurityID, avp.Mbit, 0, datatype.Unsigned32(inband))
-	}
-	m.NewAVP(avp.AuthApplicationID, avp.Mbit, 0, datatype.Unsigned32(appID))
-	return m
-}
-
-func zzDWR() *diam.Message {
-	m := diam.NewRequest(diam.DeviceWatchdog, 0, dict.Default)
-	zzIDs(m)
-	m.NewAVP(avp.OriginHost, avp.Mbit, 0, datatype.DiameterIdentity("peer.example"))
-	m.NewAVP(avp.OriginRealm, avp.Mbit, 0, datatype.DiameterIdentity("peers"))
-	if zzFlag("dwrOriginState") {
-		m.NewAVP(avp.OriginStateID, avp.Mbit, 0, datatype.Unsigned32(vU32("osid")))
-	}
-	return m
-}
-
-func zzAppMsg(code uint32, app uint32, request bool) *diam.Message {
-	flags := uint8(0)
-	if request {
-		flags = diam.RequestFlag
-	}
-	m := diam.NewMessage(code, flags, app, 1, 1, dict.Default)
-	zzIDs(m)
-	m.NewAVP(avp.SessionID, avp.Mbit, 0, datatype.UTF8String("s;1"))
-	return m
-}
-
-// zzLastResultCode parses the most recent message written on c.
-func zzLastAnswer(c *zzConn) *diam.Message {
-	if len(c.written) == 0 {
-		return nil
-	}
-	m, err := diam.ReadMessage(&zzReader{b: c.written[len(c.written)-1]}, dict.Default)
-	if err != nil {
-		return nil
-	}
-	return m
-}
-
 // zzC10_gate: histories of <= H messages from the alphabet {acceptable CER, CER without common
 // application, CER requiring in-band security, retransmitted CER, DWR, application request by name,
 // application request by index, application answer, unregistered command} fed to a server state
